@@ -123,6 +123,7 @@ def spec : List (String × String × String) := [
   ("locpot", "cellvecs", "angstrom"),         -- VASP LOCPOT header = POSCAR
   ("locpot", "cube.data", "electronvolt"),    -- VASP LOCPOT: local potential in eV
   ("gromacs", "atcoords", "nanometer"),       -- GROMACS gro: positions in nm
+  ("gromacs-novel", "atcoords", "nanometer"), -- the same file without the optional velocity columns (editconf, solvate, pdb2gmx)
   ("gromacs", "cellvecs", "nanometer"),       -- gro: box vectors in nm
   ("gromacs", "velocities", "nm/ps"),         -- gro: velocities in nm/ps
   ("gromacs", "time", "picosecond"),          -- gro title "t=" in ps
